@@ -51,6 +51,17 @@ PURE_MODULES = {
     "abc", "enum", "warnings", "uuid", "inspect", "types", "copy", "math", "numbers", "zipfile", "packaging",
     "__future__", "textwrap", "string", "logging", "sklearn", "scipy", "numpy", "np", "rich", "prettytable",
     "typing_extensions",
+    # further standard-library modules whose functions neither resolve code by name nor touch the file system
+    "hashlib", "base64", "binascii", "struct", "array", "bisect", "heapq", "datetime", "time", "decimal", "fractions",
+    "statistics", "weakref", "traceback", "pprint", "reprlib", "difflib", "unicodedata", "threading", "queue", "ast",
+    "keyword", "zlib", "html", "secrets", "random", "platform", "numbers", "graphlib", "colorsys", "cmath",
+}
+# attributes of effectful modules that are harmless (pure string functions, constants, introspection of the interpreter)
+PURE_ATTRS = {
+    "os": {"fspath", "sep", "linesep", "pathsep", "extsep", "altsep", "curdir", "pardir", "name", "PathLike", "devnull", "cpu_count", "getpid"},
+    "os.path": {"join", "basename", "dirname", "split", "splitext", "normpath", "normcase", "isabs", "commonprefix", "commonpath", "sep", "relpath"},
+    "sys": {"version_info", "version", "platform", "maxsize", "byteorder", "getrecursionlimit", "getsizeof", "float_info", "int_info", "hexversion",
+            "implementation", "exc_info", "getrefcount", "intern", "flags", "executable", "stderr", "stdout"},
 }
 # (module root, function) pairs of otherwise pure modules that do touch files / resolve code
 EFFECT_FUNCS = {
@@ -273,6 +284,9 @@ def scan():
         root = {"np": "numpy"}.get(root, root)
         last = parts[-1]
         if root in EFFECT_MODULES:
+            owner = ".".join(parts[:-1])
+            if last in PURE_ATTRS.get(owner, ()):
+                return None
             return f"{EFFECT_MODULES[root]}:{dotted}"
         if (root, last) in EFFECT_FUNCS:
             e = EFFECT_FUNCS[(root, last)]
@@ -354,7 +368,8 @@ def scan():
                         into_calls.add(k)
                 elif isinstance(n, ast.Attribute) and isinstance(n.value, ast.Name) and n.value.id not in locs:
                     imp = limports.get(n.value.id)
-                    if imp and imp[0] == "ext" and imp[1].split(".")[0] in EFFECT_MODULES:
+                    if imp and imp[0] == "ext" and imp[1].split(".")[0] in EFFECT_MODULES and n.attr not in PURE_ATTRS.get(imp[1], ()) \
+                            and not (imp[1] == "os" and n.attr == "path"):
                         # sys.modules, sys.path, os.environ ...: touching them is already the effect
                         into_effects.add(f"{EFFECT_MODULES[imp[1].split('.')[0]]}:{imp[1]}.{n.attr}")
                 elif isinstance(n, ast.Subscript):
